@@ -25,7 +25,7 @@ import (
 	"github.com/flamego/flamego/verifharness/internal/rt"
 )
 
-const rule = "round = an application with 0..7 separately added middleware, routes of every kind (static via the shortcut, optional static, regex with user groups, placeholder, match-all with capture, header-constrained, named routes whose handlers build URLs, Recovery, Renderer and Static (with ETags) middleware, a route that renders JSON through the request-scoped Render service, a route whose handler panics, a middleware that maps a per-request token read from a header, handlers that receive it by type and an application service through an interface it implements; some requests make the route's first handler note the token in the request's own parameter map, some are not-found after a partial match, some use a method the router has no table for; expected responses = every distinct request served alone by an instance that has served nothing else; instance B is fresh (nothing lazily cached yet) and is hit by 2..16 goroutines released together, each with its own list of 5..40 requests and runtime.Gosched() yields inside the handlers, under GOMAXPROCS in {2,4,16}. " +
+const rule = "round = an application with 0..7 separately added middleware, routes of every kind (static via the shortcut, optional static, regex with user groups, placeholder, match-all with capture, header-constrained, named routes whose handlers build URLs, Logger, Recovery, Renderer and Static (with ETags) middleware, AutoHead on (some requests are HEAD), a route that renders JSON through the request-scoped Render service, a route whose handler panics, a middleware that maps a per-request token read from a header, handlers that receive it by type and an application service through an interface it implements; some requests make the route's first handler note the token in the request's own parameter map, some are not-found after a partial match, some use a method the router has no table for; expected responses = every distinct request served alone by an instance that has served nothing else; instance B is fresh (nothing lazily cached yet) and is hit by 2..16 goroutines released together, each with its own list of 5..40 requests and runtime.Gosched() yields inside the handlers, under GOMAXPROCS in {2,4,16}. " +
 	"Oracle: (1) every concurrent response (status, all response headers and body = route marker + echoed parameters + token + built URL) equals the response to the same request served alone; (2) the Go race detector reports nothing (binary built with -race, GORACE=halt_on_error=1; the driver turns a report into a violation). " +
 	"non-trivial = a round in which >= 2 goroutines start with the same dynamic named route (the first use of lazily cached state is contended) and >= 3 kinds of route are hit; distinct by round text"
 
@@ -89,7 +89,8 @@ func (s *svc) Name() string { return s.name }
 // build makes one application; both instances of a round are built by the same code.
 func build(r Round) *flamego.Flame {
 	f := flamego.NewWithLogger(io.Discard)
-	f.Use(flamego.Recovery(), flamego.Renderer(flamego.RenderOptions{JSONIndent: " "}))
+	f.AutoHead(true) // every GET route below answers HEAD too
+	f.Use(flamego.Logger(), flamego.Recovery(), flamego.Renderer(flamego.RenderOptions{JSONIndent: " "}))
 	f.Use(flamego.Static(flamego.StaticOptions{Directory: assetsDir, Prefix: "/assets", SetETag: true}))
 	f.Map(&svc{"svc-A"})
 	for i := 0; i < r.Middleware; i++ {
@@ -384,6 +385,9 @@ func genReq(t *rapid.T, n int) Req {
 		q.P = "/users/" + s()
 	}
 	q.Scratch = rapid.IntRange(0, 3).Draw(t, "scratch") == 0
+	if q.M == "GET" && rapid.IntRange(0, 5).Draw(t, "head") == 0 {
+		q.M = "HEAD"
+	}
 	if rapid.IntRange(0, 9).Draw(t, "oddmethod") == 0 {
 		// a method the router has no table for (answered by the not-found chain)
 		q.M = []string{"PROPFIND", "PURGE", "get", "M-SEARCH", "REPORT"}[rapid.IntRange(0, 4).Draw(t, "om")]
